@@ -54,42 +54,34 @@ func TestC13Helpers(t *testing.T) {
 	for _, a := range amounts {
 		for n := 1; n <= 64; n++ {
 			rep.Funds++
-			var sum, min, max uint64
-			min = math.MaxUint64
-			calls, prev, lastInd := 0, uint64(math.MaxUint64), -1
+			// the statement: shares sum to the input and differ by at most one (a receiver that is not called gets 0);
+			// which receivers get the larger shares, and whether a zero share is announced, is free
+			shares := make([]uint64, n)
+			var sum uint64
 			bad := ""
 			deploy.VerifDivideFundsEvenly(a, n, func(ind int, amount uint64) {
-				calls++
+				if ind < 0 || ind >= n {
+					bad = fmt.Sprintf("receiver index %d out of 0..%d", ind, n-1)
+					return
+				}
+				shares[ind] += amount
 				sum += amount
-				if amount < min {
-					min = amount
-				}
-				if amount > max {
-					max = amount
-				}
-				if amount == 0 {
-					bad = "zero share emitted"
-				}
-				if amount > prev {
-					bad = "shares increase"
-				}
-				if ind != lastInd+1 || ind >= n {
-					bad = fmt.Sprintf("receiver index %d after %d", ind, lastInd)
-				}
-				prev, lastInd = amount, ind
 			})
-			wantCalls := n
-			if a < uint64(n) {
-				wantCalls = int(a)
+			min, max := uint64(math.MaxUint64), uint64(0)
+			for _, sh := range shares {
+				if sh < min {
+					min = sh
+				}
+				if sh > max {
+					max = sh
+				}
 			}
 			switch {
 			case bad != "":
 			case sum != a:
 				bad = fmt.Sprintf("shares sum to %d", sum)
-			case calls > 0 && max-min > 1:
+			case max-min > 1:
 				bad = fmt.Sprintf("shares differ by %d", max-min)
-			case calls != wantCalls:
-				bad = fmt.Sprintf("%d receivers served, expected %d", calls, wantCalls)
 			}
 			if bad != "" {
 				viol("fund-arithmetic", map[string]any{"helper": "divideFundsEvenly"}, fmt.Sprintf("divideFundsEvenly(%d, %d): %s", a, n, bad))
